@@ -7,6 +7,38 @@ from .spec import compare_with_spec, load_spec, prefix_width
 from .values import ClassV, ObjV, is_const, show
 
 
+def canonical_sig(sig):
+    """``alt{A | B}`` and ``alt{B | A}`` are the same pair of alternatives (which arm the source puts first depends on how the test
+    is spelled): arms in lexical order, the empty arm last"""
+    def fix(text):
+        out, i = '', 0
+        while i < len(text):
+            if text.startswith('alt{', i):
+                depth, j = 0, i + 3
+                bar = None
+                while j < len(text):
+                    if text[j] == '{':
+                        depth += 1
+                    elif text[j] == '}':
+                        depth -= 1
+                        if depth == 0:
+                            break
+                    elif text.startswith(' | ', j) and depth == 1 and bar is None:
+                        bar = j
+                    j += 1
+                if bar is not None and j < len(text):
+                    a, b = fix(text[i + 4:bar]), fix(text[bar + 3:j])
+                    if b and (not a or b < a):
+                        a, b = b, a
+                    out += 'alt{%s | %s}' % (a, b)
+                    i = j + 1
+                    continue
+            out += text[i]
+            i += 1
+        return out
+    return fix(sig)
+
+
 def diff_key(d):
     a, b = d.a, d.b
     what = None
@@ -16,7 +48,7 @@ def diff_key(d):
         what = a.sig()
     elif b is not None:
         what = b.sig()
-    return '%s[%s]' % (d.kind, what)
+    return '%s[%s]' % (d.kind, canonical_sig(what) if isinstance(what, str) else what)
 
 
 def run(ctx, report, prop, spec_file, modules, reviewed=None, skip_sides=None, only=None, sides=('parse', 'compose'), rules=None):
